@@ -69,3 +69,61 @@ package stanza
 //
 //@ func stanza.NewUnAckQueue() (q)
 //@   ensures [C17.new] q != nil && fresh(q) && len(q.Uslice) == 0 && wfQueue(q)
+
+// ---------------------------------------------------------------------------
+// C15: JID parsing and formatting
+//
+//@ spec hasSpace(s Str) Bool
+//@ pred okLocal(s)  := !hasSpace(s) && !contains(s, "@") && !contains(s, "/") && !contains(s, "'") && !contains(s, "\"") && !contains(s, ":") && !contains(s, "<") && !contains(s, ">")
+//@ pred okDomain(s) := s != "" && !hasSpace(s) && !contains(s, "@") && !contains(s, "/")
+//@ pred jAt(s)    := indexof(s, "@")
+//@ pred jLocal(s) := ite(jAt(s) < 0, "", substr(s, 0, jAt(s)))
+//@ pred jRest(s)  := ite(jAt(s) < 0, s, substr(s, jAt(s) + 1, len(s) - jAt(s) - 1))
+//@ pred jSl(s)    := indexof(jRest(s), "/")
+//@ pred jDom(s)   := ite(jSl(s) < 0, jRest(s), substr(jRest(s), 0, jSl(s)))
+//@ pred jRes(s)   := ite(jSl(s) < 0, "", substr(jRest(s), jSl(s) + 1, len(jRest(s)) - jSl(s) - 1))
+//@ pred jValid(s) := s != "" && (jAt(s) < 0 || (jLocal(s) != "" && jRest(s) != "")) && okLocal(jLocal(s)) && okDomain(jDom(s))
+//@ pred jBare(n, d)    := ite(n == "", d, n + "@" + d)
+//@ pred jFull(n, d, r) := ite(r == "", jBare(n, d), jBare(n, d) + "/" + r)
+//
+// isUsernameValid / isDomainValid: the closure that classifies one rune is verified deductively
+// (stanza.isInvalid$1 below); the glue strings.IndexFunc <-> closure is higher-order and is covered
+// by a bounded check in the replay harness (all single-rune strings, all strings up to length 3 over
+// a delimiter alphabet). The two contracts below are therefore "bounded": assumed at call sites.
+//@ func stanza.isUsernameValid(username) (ok)
+//@   bounded
+//@   ensures ok == okLocal(username)
+//@ func stanza.isDomainValid(domain) (ok)
+//@   bounded
+//@   ensures ok == okDomain(domain)
+//
+//@ spec isSpaceRune(c Int) Bool
+//@ func stanza.isInvalid$1(c, invalidRunes) (bad)
+//@   ensures [C15.rune] bad == (isSpaceRune(c) || exists(k, 0, len(invalidRunes), invalidRunes[k] == c))
+//@   loop 1:
+//@     invariant 0 <= $i && $i <= len(invalidRunes) && !isSpaceRune(c)
+//@     invariant forall(k, 0, $i, invalidRunes[k] != c)
+//@     decreases len(invalidRunes) - $i
+//
+//@ func stanza.NewJid(sjid) (j, err)
+//@   ensures [C15.parse.iff]   (err == nil) == jValid(sjid)
+//@   ensures [C15.parse.parts] err == nil ==> j != nil && j.Node == jLocal(sjid) && j.Domain == jDom(sjid) && j.Resource == jRes(sjid)
+//@   ensures [C15.parse.fresh] j != nil && fresh(j)
+//
+//@ func (*stanza.Jid).Bare(j) (s)
+//@   requires j != nil
+//@   ensures [C15.bare] s == jBare(j.Node, j.Domain)
+//@   ensures j.Node == old(j.Node) && j.Domain == old(j.Domain) && j.Resource == old(j.Resource)
+//
+//@ func (*stanza.Jid).Full(j) (s)
+//@   requires j != nil
+//@   ensures [C15.full] s == jFull(j.Node, j.Domain, j.Resource)
+//@   ensures j.Node == old(j.Node) && j.Domain == old(j.Domain) && j.Resource == old(j.Resource)
+//
+// Round trips, over the contracts above (strings: cvc5). A domain JID whose resource contains '@' has a '/'
+// before its first '@': that is the input class the property excludes, hence the antecedent on r.
+//@ lemma [C15.roundtrip.compose] forall l Str, d Str, r Str :: okLocal(l) && okDomain(d) && (l != "" || !contains(r, "@")) ==> jValid(jFull(l, d, r)) && jLocal(jFull(l, d, r)) == l && jDom(jFull(l, d, r)) == d && jRes(jFull(l, d, r)) == r
+//@ lemma [C15.roundtrip.bare] forall l Str, d Str :: okLocal(l) && okDomain(d) ==> jValid(jBare(l, d)) && jLocal(jBare(l, d)) == l && jDom(jBare(l, d)) == d && jRes(jBare(l, d)) == ""
+//@ lemma [C15.reject.empty] forall d Str, r Str :: !jValid("") && !jValid("@" + d) && !jValid("/" + r)
+//@ lemma [C15.reject.emptydomain] forall l Str, r Str :: l != "" && !contains(l, "@") ==> !jValid(l + "@") && !jValid(l + "@/" + r)
+//@ lemma [C15.resource.any] forall l Str, d Str, r Str :: okLocal(l) && l != "" && okDomain(d) ==> jRes(l + "@" + d + "/" + r) == r
